@@ -51,10 +51,13 @@ def strategy_(g):
         calls.append({"tol": tol, "max_iter": g.choice([1, 1, 2, 3, 4, 5, 8, 12, 20, 30]), "verbose": g.boolean(), "fix_first": g.boolean()})
         # a tolerance placed just above / below the relative chi2 change (decrease OR increase) of one iteration of this very run
         calls[-1]["tol_adaptive"] = {"k": g.rnd.randrange(10**6), "factor": g.choice([0.5, 2.0, 2.0, 10.0])} if g.choice([False, False, True]) else None
+        # tol may arrive as a numpy scalar of another width (np.float32(1e-4)): the rule is about its value
+        calls[-1]["tol_type"] = g.choice([None, None, None, "float32", "float32", "float16", "float64"])
         # between two calls the user may nudge vertex poses IN PLACE (the pose is an ndarray; no new object is assigned)
         calls[-1]["nudge"] = [[g.rnd.randrange(10**6), g.rnd.randrange(10**6), g.rnd.uniform(-0.3, 0.3)] for _ in range(g.rnd.randint(1, 2))] if (calls[:-1] and g.choice([False, False, True])) else []
     calls[0]["fix_first"] = case["fix_first"]
     case["calls"] = calls
+    case["debug_log"] = g.choice([False, False, False, True])
     case["regime"] = regime
     return case
 
@@ -131,6 +134,14 @@ def decide(chis, k, tol, chi0, floor=0.0):
 
 
 def check(case, ctx):
+    if case.get("debug_log"):
+        ctx.event("library-loggers-at-DEBUG")
+        with GC.debug_logging():
+            return _check(case, ctx)
+    return _check(case, ctx)
+
+
+def _check(case, ctx):
     GG.classify(case, ctx)
     ctx.event("regime:" + case["regime"])
     S0 = GG.S_of(case)
@@ -154,10 +165,13 @@ def check(case, ctx):
             M._vertices[0].fixed = True
         chis = [RG.chi2(M)]
         states = [state_bits(M)[0]]
+        code_chis = []  # the library's own chi2 of every state (initial_chi2 of each single step)
         for _ in range(max_iter):
-            GC.optimize_quiet(M, tol=0.0, max_iter=1, fix_first_pose=False, verbose=False)
+            rM, _o = GC.optimize_quiet(M, tol=0.0, max_iter=1, fix_first_pose=False, verbose=False)
+            code_chis.append(float(rM.initial_chi2) if rM.initial_chi2 is not None else float("nan"))
             chis.append(RG.chi2(M))
             states.append(state_bits(M)[0])
+        code_chis.append(float(M.calc_chi2()))
         ta = call.get("tol_adaptive")
         if ta:
             rels = [(chis[j] - chis[j + 1]) / (chis[j] + EPS) for j in range(len(chis) - 1) if math.isfinite(chis[j]) and math.isfinite(chis[j + 1]) and chis[j] > 0]
@@ -166,6 +180,25 @@ def check(case, ctx):
                 r = rels[ta["k"] % len(rels)]
                 tol = min(0.5, abs(r) * ta["factor"])
                 ctx.event("tol-adaptive:%s-of-a-%s" % ("above" if ta["factor"] > 1 else "below", "decrease" if r > 0 else "increase"))
+        tol_obj = tol
+        tt = call.get("tol_type")
+        if tt:
+            npt = {"float32": np.float32, "float16": np.float16, "float64": np.float64}[tt]
+            tol_obj = npt(tol)
+            if tt == "float32" and ta and len(code_chis) >= 2:
+                # the narrow tol sits immediately above the relative decrease of one iteration of this very run (so close that the
+                # decrease would round UP to tol in single precision): by the documented rule the run stops there
+                cand = [(code_chis[j] - code_chis[j + 1]) / (code_chis[j] + EPS) for j in range(len(code_chis) - 1) if math.isfinite(code_chis[j]) and math.isfinite(code_chis[j + 1]) and code_chis[j] > 0]
+                cand = [r for r in cand if 1e-30 < r < 0.5]
+                if cand:
+                    r = cand[ta["k"] % len(cand)]
+                    t32 = np.float32(r)
+                    if float(t32) <= r:
+                        t32 = np.nextafter(t32, np.float32(np.inf))
+                    tol_obj = t32
+                    ctx.event("tol:float32-immediately-above-a-decrease")
+            tol = float(tol_obj)
+            ctx.event("tol-type:" + tt)
         # ---- second model: every single iteration is executed on a graph rebuilt from scratch (fresh edge, vertex and
         #      graph objects), so nothing can be carried over from one iteration to the next; it must agree with the
         #      single-step clone, which keeps its objects
@@ -181,8 +214,8 @@ def check(case, ctx):
             if sa != sb:
                 return ctx.fail("state-carried-across-iterations", "call %d: after %d single iterations the long-lived clone and a chain of freshly rebuilt graphs disagree" % (ci, j))
         # ---- the call under test, and the same call on a fresh graph with the opposite verbose flag
-        ret, out = GC.optimize_quiet(G, tol=tol, max_iter=max_iter, fix_first_pose=ff, verbose=verbose)
-        ret2, out2 = GC.optimize_quiet(F, tol=tol, max_iter=max_iter, fix_first_pose=ff, verbose=not verbose)
+        ret, out = GC.optimize_quiet(G, tol=tol_obj, max_iter=max_iter, fix_first_pose=ff, verbose=verbose)
+        ret2, out2 = GC.optimize_quiet(F, tol=tol_obj, max_iter=max_iter, fix_first_pose=ff, verbose=not verbose)
         if (out != "") != bool(verbose) or (out2 != "") != (not verbose):
             return ctx.fail("verbose-output", "call %d: verbose=%r printed %d chars; verbose=%r printed %d chars" % (ci, verbose, len(out), not verbose, len(out2)))
         if state_bits(G) != state_bits(F):
